@@ -28,7 +28,7 @@ AdmitEach(base, bonded, tx) ==
 
 \* refresh: only in end-block, only once the period has expired
 TwelveHoursMs == N(43200000)
-RefreshAt(base, expiry, bonded, now, base2, expiry2) ==
-  IF expiry \preceq now THEN base2 = bonded /\ expiry2 = now ++ TwelveHoursMs
+RefreshAt(base, expiry, bonded, now, base2, expiry2, period) ==
+  IF expiry \preceq now THEN base2 = bonded /\ expiry2 = now ++ period
   ELSE base2 = base /\ expiry2 = expiry
 =============================================================================
